@@ -388,6 +388,12 @@ def codev_rules(run, db):
             c = r.num.const_value() / r.den.const_value()
             if not (0 < c <= 32767):
                 bad.append(r.key())
+            # a constant scale is only safe when the path condition bounds the MAGNITUDE of the data from above
+            guards = [(ast.parse(ct, mode='eval').body, tr) for ct, tr in p.conds]
+            bounded = any(isinstance(g, ast.Compare) and len(g.ops) == 1 and isinstance(g.left, ast.Name) and g.left.id == 'mag' and
+                          ((tr and isinstance(g.ops[0], (ast.Lt, ast.LtE))) or ((not tr) and isinstance(g.ops[0], (ast.Gt, ast.GtE)))) for g, tr in guards)
+            if not bounded:
+                bad.append('constant scale %s chosen under the conditions %s, none of which bounds max|value| from above' % (r.key(), [(ct, tr) for ct, tr in p.conds]))
             continue
         ok = False
         # 32767 / max(abs(nanmin(A)), abs(nanmax(A))) for one and the same A built from the input array
@@ -524,6 +530,22 @@ def zygo_scale_rules(run, db, sets):
     fin = db.func('prysm.interferogram.Interferogram.__init__')
     run.check(sets.get('wavelength', '').replace(' ', '') in ('wavelength/1000000.0', 'wavelength/1e6') and 'wavelength *= 1000000.0' in ast.unparse(fin.node), 'C14.scale', fin.qual, 'wavelength',
               'wavelength: um -> m in the file -> um on load', 'wavelength units do not round trip (writer %s)' % sets.get('wavelength'), fin.loc())
+    # which header field becomes the wavelength of the loaded object: the one the writer stores ('wavelength')
+    ctor = [n for n in walk_no_nested(fi.node) if isinstance(n, ast.Call) and ast.unparse(n.func) == 'Interferogram']
+    if len(ctor) != 1:
+        raise AnalysisError('from_zygo_dat: Interferogram(...) construction not found')
+    ckw = {k.arg: k.value for k in ctor[0].keywords}
+    wv = ckw.get('wavelength')
+    wtxt = ast.unparse(wv).replace(' ', '') if wv is not None else None
+    delegated = wv is None and False or (isinstance(wv, ast.Constant) and wv.value is None)
+    direct = wtxt is not None and "['wavelength']" in wtxt.replace('"', "'") and 'select' not in wtxt
+    first_get = [n for n in walk_no_nested(fin.node) if isinstance(n, ast.Call) and isinstance(n.func, ast.Attribute) and n.func.attr == 'get' and ast.unparse(n.func.value) == 'meta']
+    ok_init = bool(first_get) and isinstance(first_get[0].args[0], ast.Constant) and sorted(first_get, key=lambda n_: n_.lineno)[0].args[0].value == 'wavelength'
+    run.check((delegated and ok_init) or direct, 'C14.scale', fi.qual, 'wavelength field', "the loaded object's wavelength comes from the header field 'wavelength' (the one write_zygo_dat stores)",
+              "from_zygo_dat builds the Interferogram with wavelength=%s; write_zygo_dat stores the wavelength under 'wavelength' only, so another field (or a default left in it) makes a saved non-HeNe wavelength come back changed" % wtxt, fi.loc(ctor[0]))
+    okm = ast.unparse(ckw.get('phase', ast.Constant(None))) in ('phase', "zydat['phase']") and ast.unparse(ckw.get('meta', ast.Constant(None))) in ("zydat['meta']", 'meta') \
+        and ast.unparse(ckw.get('intensity', ast.Constant(None))) == "zydat['intensity']"
+    run.check(okm, 'C14.scale', fi.qual, 'loader wiring', 'phase, intensity and header of the file go to the object', 'from_zygo_dat wiring changed', fi.loc(ctor[0]))
     fs = db.func('prysm.interferogram.Interferogram.save_zygo_dat')
     calls = [n for n in walk_no_nested(fs.node) if isinstance(n, ast.Call) and ast.unparse(n.func) == 'write_zygo_dat']
     kw = {k.arg: ast.unparse(k.value) for c in calls for k in c.keywords}
